@@ -27,6 +27,7 @@ type Clause struct {
 	name string // optional label: ensures name: expr
 	src  string
 	line int
+	ord  int // 1-based ordinal among the ensures clauses of the contract
 	// comparator
 	left, right []string
 	where       *Expr
@@ -68,6 +69,7 @@ type Lemma struct {
 	expr *Expr
 	pkg  string
 	src  string
+	uses []string
 }
 
 type ContractFile struct {
@@ -445,7 +447,16 @@ func parseContractFile(pkg, path, src string) (*ContractFile, error) {
 			if err != nil {
 				return nil, fail(err)
 			}
-			cur.clauses = append(cur.clauses, &Clause{kind: word, expr: ex, tags: tags, name: name, src: body, line: lineNos[i]})
+			ncl := &Clause{kind: word, expr: ex, tags: tags, name: name, src: body, line: lineNos[i]}
+			if word == "ensures" {
+				for _, c := range cur.clauses {
+					if c.kind == "ensures" {
+						ncl.ord++
+					}
+				}
+				ncl.ord++
+			}
+			cur.clauses = append(cur.clauses, ncl)
 		case "comparator":
 			if cur == nil {
 				return nil, fail(fmt.Errorf("clause outside func"))
@@ -565,12 +576,18 @@ func parseContractFile(pkg, path, src string) (*ContractFile, error) {
 			if ci < 0 {
 				return nil, fail(fmt.Errorf("lemma name [tags]: expr"))
 			}
-			head, tags := splitTags(rest[:ci])
+			hd := rest[:ci]
+			var uses []string
+			if ui := strings.Index(hd, " uses "); ui >= 0 {
+				uses = strings.Fields(strings.ReplaceAll(hd[ui+6:], ",", " "))
+				hd = hd[:ui]
+			}
+			head, tags := splitTags(hd)
 			ex, err := parseExpr(rest[ci+1:])
 			if err != nil {
 				return nil, fail(err)
 			}
-			cf.lemmas = append(cf.lemmas, &Lemma{name: head, tags: tags, expr: ex, pkg: pkg, src: rest[ci+1:]})
+			cf.lemmas = append(cf.lemmas, &Lemma{name: head, tags: tags, expr: ex, pkg: pkg, src: rest[ci+1:], uses: uses})
 			cur = nil
 		default:
 			return nil, fail(fmt.Errorf("unknown contract keyword %q", word))
@@ -584,7 +601,7 @@ func isLabel(s string) bool {
 		return false
 	}
 	for _, r := range s {
-		if !(unicode.IsLetter(r) || unicode.IsDigit(r) || r == '-' || r == '_' || r == '/' || r == '.' || r == '=' || r == '<' || r == '>' || r == '!' || r == '~' || r == '^') {
+		if !(unicode.IsLetter(r) || unicode.IsDigit(r) || r == '-' || r == '_' || r == '/' || r == '.' || r == '=' || r == '*' || r == '<' || r == '>' || r == '!' || r == '~' || r == '^') {
 			return false
 		}
 	}
